@@ -82,6 +82,7 @@ def order(t, sym, shares, price=None):
     return dict(type=t, symbol=sym, shares=f2b(shares), price=None if price is None else f2b(price), via="json")
 
 
+LIQ_REL_KINDS = ["liq_eq", "liq_up", "liq_down", "liq_mid_total", "total_eq", "liq_half"]
 REL_KINDS = ["eq", "ulp_up", "ulp_down", "ulps_up_8", "plus_1e-9", "plus_1e-7", "plus_1e-3", "times_1p1e-12", "half"]
 
 
@@ -167,8 +168,8 @@ def gen_broker_scenario(rng, lazy=False, style=None, malformed=False, limit_orde
             else:
                 ops.append(dict(op="withdraw", x=f2b(rng.choice([10.0, 50.0, cash / 2, cash * 3, 0.0]))))
         elif r < 0.52:
-            if rng.random() < 0.25:
-                ops.append(dict(op="liq", x=0, rel=rng.choice(REL_KINDS)))
+            if rng.random() < 0.4:
+                ops.append(dict(op="liq", x=0, rel=rng.choice(REL_KINDS + LIQ_REL_KINDS * 2)))
             else:
                 ops.append(dict(op="liq", x=f2b(rng.choice([10.0, 105.0, cash / 2, cash, cash * 1.5, cash * 4, 1e9,
                                                             rng.uniform(0, 2 * cash)]))))
